@@ -241,6 +241,7 @@ pub fn route(toks: &[&str]) -> String {
         Err(_) => return "cfgerr".into(),
     };
     let mut dump = vec![];
+    let mut ups: Vec<std::sync::Arc<crate::rig::Upstream>> = vec![];
     {
         let c = conf.try_read().expect("harness: config lock");
         for r in &c.dns_routes {
@@ -255,7 +256,7 @@ pub fn route(toks: &[&str]) -> String {
                         let sa: std::net::SocketAddr = x.parse().expect("harness: server addr");
                         match sa.ip() {
                             std::net::IpAddr::V4(a) => {
-                                crate::rig::upstream(a);
+                                ups.push(crate::rig::upstream(a));
                                 u32::from(a).to_string()
                             }
                             std::net::IpAddr::V6(_) => "0".into(),
@@ -273,6 +274,26 @@ pub fn route(toks: &[&str]) -> String {
     let mut q = base_query(0x1234, "x", 1);
     q.question.qdomain = labels(kv(toks, "q"));
     q.rd = kv(toks, "rd") == "1";
+    // `bits=<cd><ad><do> bits2=<cd><ad><do>`: the same question asked twice in a row through the whole chain, the second
+    // time with these header bits; `u2` = queries that reached the upstreams because of the second one (C06: the key)
+    let bits = |q: &mut dnspkt::DNSPkt, b: &str| {
+        let v: Vec<bool> = b.chars().map(|c| c == '1').collect();
+        q.cd = v[0];
+        q.ad = v[1];
+        q.edns_do = v[2];
+    };
+    let second = kv_opt(toks, "bits2").map(|b2| {
+        // a name no other case has asked for (the cache may outlive a case): one more label in front
+        static N: std::sync::atomic::AtomicUsize = std::sync::atomic::AtomicUsize::new(0);
+        let uniq = format!("u{}", N.fetch_add(1, std::sync::atomic::Ordering::SeqCst));
+        let full = format!("{}{}", uniq, { let s = q.question.qdomain.to_string(); if s.is_empty() { String::new() } else { format!(".{}", s) } });
+        q.question.qdomain = full.parse().expect("harness: name");
+        bits(&mut q, kv(toks, "bits"));
+        let mut q2 = q.clone();
+        q2.qid = 0x4321;
+        bits(&mut q2, b2);
+        q2
+    });
     let msg = erbium::dns::DnsMessage {
         in_query: q,
         in_size: 40,
@@ -281,9 +302,11 @@ pub fn route(toks: &[&str]) -> String {
         protocol: erbium::dns::Protocol::Udp,
     };
     let rt = crate::rig::rt_real();
-    let res = rt.block_on(async {
+    let total = |ups: &Vec<std::sync::Arc<crate::rig::Upstream>>| ups.iter().map(|u| u.count.load(std::sync::atomic::Ordering::SeqCst)).sum::<usize>();
+    let (res, extra) = rt.block_on(async {
+        // one handler chain (and so one cache) for both queries
         let h = verif::RouteHandler::new(conf.clone()).await;
-        match tokio::time::timeout(std::time::Duration::from_secs(20), h.handle_query(&msg)).await {
+        let res = match tokio::time::timeout(std::time::Duration::from_secs(20), h.handle_query(&msg)).await {
             Err(_) => "timeout".to_string(),
             Ok(Ok(reply)) => match reply.answer.first().map(|rr| &rr.rdata) {
                 Some(dnspkt::RData::Other(v)) if v.len() == 4 => {
@@ -295,7 +318,27 @@ pub fn route(toks: &[&str]) -> String {
             Ok(Err(erbium::dns::Error::Blocked)) => "nxdomain".into(),
             Ok(Err(erbium::dns::Error::NoRouteConfigured)) => "servfail".into(),
             Ok(Err(e)) => format!("outerr:{}", e).replace(' ', "_"),
-        }
+        };
+        let extra = match second {
+            Some(q2) => {
+                let before = total(&ups);
+                let msg2 = erbium::dns::DnsMessage {
+                    in_query: q2,
+                    in_size: 40,
+                    local_ip: std::net::IpAddr::V4(std::net::Ipv4Addr::LOCALHOST),
+                    remote_addr: std::net::Ipv4Addr::LOCALHOST.with_port(40001),
+                    protocol: erbium::dns::Protocol::Udp,
+                };
+                let res2 = match tokio::time::timeout(std::time::Duration::from_secs(20), h.handle_query(&msg2)).await {
+                    Err(_) => "timeout",
+                    Ok(Ok(_)) => "fwd",
+                    Ok(Err(_)) => "err",
+                };
+                format!(" u2={} res2={}", total(&ups) - before, res2)
+            }
+            None => String::new(),
+        };
+        (res, extra)
     });
-    format!("routes={} res={}", if dump.is_empty() { "-".to_string() } else { dump.join("+") }, res)
+    format!("routes={} res={}{}", if dump.is_empty() { "-".to_string() } else { dump.join("+") }, res, extra)
 }
